@@ -1,10 +1,14 @@
 #!/bin/sh
-# usage: tools/try_mutant.sh <patch.diff> <prop> [more props...]   (applies to /repo, runs checks, reverts)
+# usage: tools/try_mutant.sh <patch.diff> <prop> [more props...]
+# Applies the patch to a scratch worktree of /repo (never to /repo itself), runs the checks against it
+# through VERIF_REPO, removes the worktree.
 patch="$1"; shift
-git -C /repo apply "$patch" || { echo "PATCH DOES NOT APPLY"; exit 3; }
-trap 'git -C /repo checkout -- . ' EXIT INT TERM
+wt=$(mktemp -d /tmp/mutwt-XXXXXX); rmdir "$wt"
+git -C /repo worktree add -q --detach "$wt" HEAD || exit 3
+trap 'git -C /repo worktree remove --force "$wt" >/dev/null 2>&1' EXIT INT TERM
+git -C "$wt" apply "$patch" || { echo "PATCH DOES NOT APPLY"; exit 3; }
 for p in "$@"; do
-  out=$(/verif/check "$p" --tier "${TIER:-quick}" 2>&1); rc=$?
+  out=$(VERIF_REPO="$wt" /verif/check "$p" --tier "${TIER:-quick}" 2>&1); rc=$?
   echo "=== $p on $(basename $(dirname $patch)): exit=$rc violations=$(echo "$out" | grep -c '^VIOLATION') drift=$(echo "$out" | grep -c '^SPEC-DRIFT') machinery=$(echo "$out" | grep -c 'MACHINERY')"
   echo "$out" | grep -A1 '^VIOLATION' | grep 'key=' | cut -c1-${W:-160} | sort | uniq -c | sort -rn | head -${N:-3}
   echo "$out" | grep 'MACHINERY' | head -2 | cut -c1-300
